@@ -173,6 +173,10 @@ def gen_case(rng, big=False):
     stokes = None
     if wf in ('matrix', 'scalar-stokes'):
         stokes = [1.0, _dy(rng, -1 / 2, 1 / 2, 3), _dy(rng, -1 / 2, 1 / 2, 3), _dy(rng, -1 / 2, 1 / 2, 3)]
+        if rng.random() < 0.12:
+            # degree of polarisation > 1 (not a physical Stokes vector): Wavefront.I is then an indefinite form, passivity
+            # is not claimed (stokes_power_unphysical_counterexample); only the I polynomial and the other clauses are checked
+            stokes = [0.5, [1.0, -1.0][int(rng.integers(0, 2))], _dy(rng, -1 / 2, 1 / 2, 3), _dy(rng, -1, 1, 3)]
     zero = [-dx * (nx - 1) / 2, -dy * (ny - 1) / 2]
     if rng.random() < 0.2:
         zero = [_dy(rng, -1, 1, 4), _dy(rng, -1, 1, 4)]
@@ -185,6 +189,31 @@ def gen_case(rng, big=False):
         z2 = math.copysign(zmax - abs(z), z) if z != 0 else 0.0
     return {'alias': alias, 'kind': kind, 'dims': [nx, ny], 'delta': [dx, dy], 'zero': zero, 'lam': lam, 'z': z, 'z2': z2, 'n': n, 'q': q, 's': s, 'qspell': qspell, 'sspell': sspell,
             'wf': wf, 'stokes': stokes, 'fseed': int(rng.integers(0, 2 ** 31))}
+
+
+def gen_small_fresnel(rng):
+    """A Fresnel propagator on the transfer-function branch small enough for the exact propagation of the model (driver op `prop`)."""
+    while True:
+        case = gen_case(rng)
+        nx, ny = [(2, 2), (3, 3), (2, 3), (3, 2), (4, 4), (4, 3), (2, 4), (5, 2), (3, 5), (5, 5)][int(rng.integers(0, 10))]
+        dx, dy = case['delta']
+        q = [1.0, 1.0, 1.5, 2.0, [1.0, 2.0], [2.0, 1.0], 4 / 3][int(rng.integers(0, 7))]
+        s = [1, 1, 2, [1, 2], [2, 1]][int(rng.integers(0, 5))]
+        zmax = min(dx, dy) * max(nx * dx, ny * dy) / case['lam']
+        z = zmax * int(rng.integers(1, 65)) / 64.0 * (1 if rng.random() < 0.5 else -1)
+        case.update({'kind': 'fresnel', 'dims': [nx, ny], 'q': q, 's': s, 'qspell': None, 'sspell': None, 'z': z, 'z2': z / 4, 'wf': 'scalar', 'stokes': None,
+                     'zero': [-dx * (nx - 1) / 2, -dy * (ny - 1) / 2], 'alias': False, 'small': True})
+        if prop_affordable(case):
+            return case
+
+
+def prop_affordable(case):
+    if case['kind'] != 'fresnel' or case['wf'] != 'scalar' or case['z'] == 0:
+        return False
+    reg = exact_regime(case)
+    nx, ny = case['dims']
+    mm, ss = reg['M'][0] * reg['M'][1], sxy(case)[0] * sxy(case)[1]
+    return (not reg['ir']) and mm <= 36 and nx * ny * mm * mm * ss <= 9000
 
 
 def directed():
@@ -326,13 +355,18 @@ def oracle_case(case, observe=None):
     lhs, rhs = inner(ey, efx, w), inner(eby, ex, w)
     if not abs(lhs - rhs) <= TOL * max(1.0, abs(lhs), abs(rhs)):
         bad.append(('adjoint ' + tag, '<y, forward x> = %r but <backward y, x> = %r' % (lhs, rhs)))
-    obs = {'grid': grid, 'prop': prop, 'reg': reg, 'near_boundary': near_boundary, 'ex': ex, 'efx': efx}
+    obs = {'grid': grid, 'prop': prop, 'reg': reg, 'near_boundary': near_boundary, 'ex': ex, 'efx': efx, 'ey': ey, 'eby': eby}
+    if case['stokes'] is not None and ex.ndim == 3:
+        # Stokes-I images of the input and of the propagated wavefront (for the `stokesI` correspondence)
+        obs['stokes_I'] = [(ex, np.asarray(make_wavefront(case, x.copy()).I, dtype=float)), (efx, np.asarray(fx.I, dtype=float))]
     if reg['stated'] and not near_boundary:
         evan = kind == 'angular' and reg['minrad'] < 0
         pre = 'angular-evanescent-corner ' if evan else ''
         wfx = make_wavefront(case, x.copy())
         p_in, p_out = float(wfx.total_power), float(fx.total_power)
-        if not p_out <= p_in * (1 + TOL) + TOL:
+        sv = [Fraction(v) for v in case['stokes']] if case['stokes'] is not None else [1, 0, 0, 0]
+        physical = sv[0] >= 0 and sv[1] ** 2 + sv[2] ** 2 + sv[3] ** 2 <= sv[0] ** 2
+        if physical and not p_out <= p_in * (1 + TOL) + TOL:
             bad.append((pre + 'power-increase ' + tag, 'total power %r -> %r in the adequately sampled regime (z=%r)' % (p_in, p_out, z)))
         pm = build_prop(case, grid, -z)
         fm = np.asarray(pm.forward(make_wavefront(case, x.copy())).electric_field)
@@ -341,7 +375,7 @@ def oracle_case(case, observe=None):
         if not d <= TOL * max(1.0, float(np.abs(bx).max())):
             bad.append((pre + 'neg-z ' + tag, 'forward(-z) differs from backward(+z) by %.3g (z=%r)' % (d, z)))
         if unpadded(case):
-            if not abs(p_out - p_in) <= TOL * max(1.0, p_in):
+            if not abs(p_out - p_in) <= TOL * max(1.0, abs(p_in)):
                 bad.append(('unitary ' + tag, 'power %r -> %r with zero_padding=1, num_oversampling=1' % (p_in, p_out)))
             back = np.asarray(prop.backward(fx).electric_field)
             d = float(np.abs(back - ex).max())
@@ -386,13 +420,32 @@ def setup_line(case):
 def model_requests(case, obs, rng, head=None):
     M = obs['reg']['M']
     lines = list(head) if head is not None else [setup_line(case)]
-    pix = [(0, 0), (M[0] - 1, M[1] - 1), (M[0] // 2, M[1] // 2), (0, M[1] - 1)]
+    lines.append('C04 emb')
+    # FFT-layout bins (qx, qy) of the array the filter multiplies with: DC, Nyquist corner, the bin next to it, ...
+    pix = [(0, 0), (M[0] - 1, M[1] - 1), (M[0] // 2, M[1] // 2), (0, M[1] - 1), ((M[0] + 1) // 2, (M[1] + 1) // 2)]
     for _ in range(4):
         pix.append((int(rng.integers(0, M[0])), int(rng.integers(0, M[1]))))
     pix = sorted(set(pix))
-    for ix, iy in pix:
-        lines.append('C04 tf %d %d' % (ix, iy))
+    for qx, qy in pix:
+        lines.append('C04 tfq %d %d' % (qx, qy))
+    # Stokes-I of a Jones-matrix wavefront at a few pixels, input and output
+    obs['stokes_req'] = []
+    for E, img in obs.get('stokes_I', []):
+        for k in sorted(set([0, E.shape[-1] - 1, int(rng.integers(0, E.shape[-1]))])):
+            comps = [E[0, 0, k], E[0, 1, k], E[1, 0, k], E[1, 1, k]]
+            vals = [v for c in comps for v in (float(c.real), float(c.imag))]
+            lines.append('C04 stokesI [%s] [%s]' % (','.join(rat(float(v)) for v in case['stokes']), ','.join(rat(v) for v in vals)))
+            obs['stokes_req'].append(float(img[k]))
     # impulse-response branch: the whole sampled impulse response (small internal grids only)
+    # the whole propagation computed exactly by the model (small Fresnel cases on the transfer-function branch)
+    obs['prop_req'] = []
+    if prop_affordable(case) and obs.get('ex') is not None and np.asarray(obs['ex']).ndim == 1:
+        for back, e_in, e_out in ((0, obs['ex'], obs['efx']), (1, obs.get('ey'), obs.get('eby'))):
+            if e_in is not None and all(float(v * 16).is_integer() for v in np.concatenate([np.asarray(e_in).real, np.asarray(e_in).imag])):
+                lines.append('C04 prop %d %s %s' % (back, '[%s]' % ','.join(rat(float(v)) for v in np.asarray(e_in).real),
+                                                   '[%s]' % ','.join(rat(float(v)) for v in np.asarray(e_in).imag)))
+                obs['prop_req'].append((back, np.asarray(e_out)))
+    obs['n_fixed'] = len(lines) - (len(head) if head is not None else 1)     # emb + tfq + stokesI + prop answers
     if obs['reg']['ir'] and case['z'] != 0 and M[0] * M[1] * sxy(case)[0] * sxy(case)[1] <= IR_BUDGET:
         for jy in range(M[1]):
             lines.append('C04 ir %d' % jy)
@@ -476,15 +529,48 @@ def compare_model(ctx, case, obs, pix, answers):
     if tf is None:
         raise MachineryError('FourierFilter has no cached transfer function after forward()')
     D = np.fft.fftshift(np.asarray(tf))          # centred layout (My, Mx)
+    raw = np.asarray(tf)                         # FFT layout, as multiplied
     worst = 0.0
-    ir_rows = answers[1 + len(pix):]
-    for (ix, iy), resp in zip(pix, answers[1:1 + len(pix)]):
+    kemb = _kv(answers[1])
+    tf_answers = answers[2:2 + len(pix)]
+    npr = len(obs.get('prop_req', []))
+    st_answers = answers[2 + len(pix):1 + obs['n_fixed'] - npr]
+    pr_answers = answers[1 + obs['n_fixed'] - npr:1 + obs['n_fixed']]
+    ir_rows = answers[1 + obs['n_fixed']:]
+    # the exact propagation of the model (formal phase sums, evaluated here) against forward() / backward() of the real propagator
+    for resp, (back, real) in zip(pr_answers, obs.get('prop_req', [])):
+        if not resp.startswith('ok'):
+            raise MachineryError('C04 prop: driver answered %r for %r' % (resp, case))
+        got = np.array([sum((float(parse_rat(c)) * np.exp(2j * np.pi * float(parse_rat(t))) for c, t in (term.split(':') for term in pix_.split(',') if term)), 0j)
+                        for pix_ in resp.split('out=', 1)[1].split(';')])
         ctx.traces_validated += 1
-        want = model_tf_value(case, _kv(resp))
+        ctx.count('fresnel-propagation-executed(prop):' + ('backward' if back else 'forward'))
+        if got.shape != real.shape or not np.abs(got - real).max() <= 1e-10 * max(1.0, float(np.abs(real).max())):
+            ctx.disagree('C04 executed Fresnel propagation', {'case': case, 'direction': 'backward' if back else 'forward',
+                                                              'max_dev': float(np.abs(got - real).max()) if got.shape == real.shape else None})
+    for (qx, qy), resp in zip(pix, tf_answers):
+        ctx.traces_validated += 1
+        kq = _kv(resp)
+        at = [int(v) for v in parse_rat_list(kq['at'])]
+        if at != [(qx + model_M[0] // 2) % model_M[0], (qy + model_M[1] // 2) % model_M[1]]:
+            ctx.disagree('C04 ifftshift index', {'case': case, 'bin': [qx, qy], 'model': at})
+        want = model_tf_value(case, kq)
         if want is None:
             ctx.count('skipped:pixel-on-evanescent-boundary')
             continue
-        worst = max(worst, abs(complex(D[iy, ix]) - want) / max(1.0, abs(want)))
+        worst = max(worst, abs(complex(raw[qy, qx]) - want) / max(1.0, abs(want)))
+    # Stokes-I polynomial of the model against Wavefront.I
+    for resp, real_I in zip(st_answers, obs.get('stokes_req', [])):
+        ks = _kv(resp)
+        ctx.traces_validated += 1
+        sv = [Fraction(v) for v in case['stokes']]
+        phys = sv[0] >= 0 and sv[1] ** 2 + sv[2] ** 2 + sv[3] ** 2 <= sv[0] ** 2
+        if (ks['phys'] == '1') != phys:
+            ctx.disagree('C04 Stokes vector physical', {'case': case, 'model': ks['phys'], 'harness': phys})
+        ctx.count('stokesI-compared' + ('' if phys else '(unphysical Stokes vector)'))
+        mi = float(parse_rat(ks['I']))
+        if not abs(mi - real_I) <= TOL * max(1.0, abs(mi)):
+            ctx.disagree('C04 Stokes I', {'case': case, 'impl': real_I, 'model': mi})
     matches = worst <= TOL
     if obs['near_boundary']:
         ctx.boundary_skipped += 1
@@ -505,27 +591,40 @@ def compare_model(ctx, case, obs, pix, answers):
         # (a discrete chirp can be its own transform, e.g. lambda |z| = M delta^2: recorded, not decided, on large grids)
         ctx.count('ir-branch-coincides-with-sampled-tf(large grid, not recomputed)')
     ctx.count('branch:' + kv['branch'])
-    # end to end: pad -> fftn -> multiply -> ifftn -> crop, recomputed with the model's sizes and cut-out
+    # the cut-out embedding (`cutoutEmb` = embRows x embCols) against the slices the real filter writes to / reads from
     nx, ny = case['dims']
-    ex = obs['ex']
-    ts = ex.shape[:-1]
-    arr = ex.reshape(ts + (ny, nx))
-    if kv['cut'] == 'none':
-        padded = arr
-    else:
-        y0, y1, x0, x1 = (int(v) for v in kv['cut'].split(':'))
-        padded = np.zeros(ts + (model_M[1], model_M[0]), dtype=complex)
-        padded[..., y0:y1, x0:x1] = arr
-    out = np.fft.ifft2(np.fft.fft2(padded, axes=(-2, -1)) * np.asarray(tf), axes=(-2, -1))
-    if kv['cut'] != 'none':
-        out = out[..., y0:y1, x0:x1]
-    out = out.reshape(ts + (nx * ny,))
+    rows = [int(v) for v in parse_rat_list(kemb['rows'])]
+    cols = [int(v) for v in parse_rat_list(kemb['cols'])]
+    idx = np.arange(model_M[0] * model_M[1]).reshape(model_M[1], model_M[0])
+    real_emb = idx if ff.cutout is None else idx[ff.cutout]
     ctx.traces_validated += 1
-    dev = float(np.abs(out - obs['efx']).max())
-    if not dev <= TOL * max(1.0, float(np.abs(out).max())):
-        ctx.disagree('C04 filter pipeline', {'case': case, 'max_dev': dev,
-                     'detail': 'forward() differs from crop(ifftn(D * fftn(pad(x)))) with the model cut-out'})
+    if kemb['padok'] != '1' or len(rows) != ny or len(cols) != nx or real_emb.shape != (ny, nx) \
+            or not np.array_equal(real_emb, idx[np.ix_(rows, cols)]):
+        ctx.disagree('C04 cut-out embedding', {'case': case, 'model_rows': rows, 'model_cols': cols, 'impl_cutout': cut})
+        return
+    ctx.count('embedding:' + ('identity' if ff.cutout is None else 'padded'))
+    # end to end: pad -> fftn -> multiply -> ifftn -> crop, recomputed with the model's sizes and embedding,
+    # forward (D) and backward (conj D)
+    sel = np.ix_(rows, cols)
 
+    def pipeline(e_in, d):
+        ts = e_in.shape[:-1]
+        arr = e_in.reshape(ts + (ny, nx))
+        padded = np.zeros(ts + (model_M[1], model_M[0]), dtype=complex)
+        padded[(Ellipsis,) + sel] = arr
+        out = np.fft.ifft2(np.fft.fft2(padded, axes=(-2, -1)) * d, axes=(-2, -1))
+        return out[(Ellipsis,) + sel].reshape(ts + (nx * ny,))
+
+    for name, e_in, e_out, d in (('forward', obs['ex'], obs['efx'], raw), ('backward', obs.get('ey'), obs.get('eby'), np.conj(raw))):
+        if e_in is None:
+            continue
+        out = pipeline(e_in, d)
+        ctx.traces_validated += 1
+        ctx.count('pipeline-recomputed:' + name)
+        dev = float(np.abs(out - e_out).max())
+        if not dev <= TOL * max(1.0, float(np.abs(out).max())):
+            ctx.disagree('C04 filter pipeline', {'case': case, 'direction': name, 'max_dev': dev,
+                         'detail': '%s() differs from crop(ifftn(%s * fftn(pad(x)))) with the model embedding' % (name, 'D' if name == 'forward' else 'conj D')})
 
 
 # ---------------------------------------------------------------------------------------------
@@ -695,6 +794,11 @@ def oracle_session(sess, observe=None):
         reg = exact_regime(cur)
         near = abs(reg['slack']) <= Fraction(1, 10 ** 7) * max(Fraction(cur['delta'][0]), Fraction(cur['delta'][1]))
         observe.update({'grid': grid, 'prop': prop, 'reg': reg, 'near_boundary': near, 'ex': last_fwd[0], 'efx': last_fwd[1], 'cur': cur})
+        try:
+            yb = _typed_field(cur, grid, 1, np.complex128)
+            observe.update({'ey': wf_field(cur, yb), 'eby': np.asarray(prop.backward(make_wavefront(cur, yb.copy())).electric_field)})
+        except Exception:
+            pass
     return bad
 
 
@@ -735,6 +839,373 @@ def session_head(sess):
     return lines
 
 # ---------------------------------------------------------------------------------------------
+# FourierFilter with a matrix-valued (tensor) transfer function: forward = field_dot(D, .), backward = field_dot(D^H, .)
+
+def gen_mcase(rng):
+    nx, ny = DIMS[int(rng.integers(0, 15))]
+    q = [1.0, 2.0, 1.5, [1.0, 2.0], [2.0, 1.0], 3.0][int(rng.integers(0, 6))]
+    return {'dims': [nx, ny], 'delta': [0.25, [0.25, 0.5][int(rng.integers(0, 2))]], 'q': q, 'n': [2, 2, 2, 3][int(rng.integers(0, 4))],
+            'field': ['vector', 'vector', 'matrix'][int(rng.integers(0, 3))], 'tfkind': ['generator', 'field'][int(rng.integers(0, 2))],
+            'fseed': int(rng.integers(0, 2 ** 31))}
+
+
+def directed_mcases():
+    return [{'dims': [4, 6], 'delta': [0.25, 0.25], 'q': q, 'n': n, 'field': f, 'tfkind': t, 'fseed': 11}
+            for q in (1.0, 2.0, [1.0, 2.0]) for n, f in ((2, 'vector'), (2, 'matrix'), (3, 'vector')) for t in ('generator', 'field')]
+
+
+def _dyadic_complex(rng, shape, bits=2):
+    return rng.integers(-8, 9, size=shape) / float(1 << bits) + 1j * rng.integers(-8, 9, size=shape) / float(1 << bits)
+
+
+def _mq(mc):
+    return np.array(mc['q'], dtype=float) if isinstance(mc['q'], list) else mc['q']
+
+
+def build_mfilter(mc, transform=None):
+    """(grid, FourierFilter, D) with D the (n, n, My*Mx) dyadic transfer-function samples on the internal grid."""
+    import hcipy
+    grid = hcipy.CartesianGrid(hcipy.RegularCoords(np.array(mc['delta'], dtype=float), np.array(mc['dims']),
+                                                   np.array([-d * (k - 1) / 2 for d, k in zip(mc['delta'], mc['dims'])])))
+    n = mc['n']
+    holder = {}
+
+    def tfgen(internal_grid):
+        D = _dyadic_complex(np.random.default_rng([mc['fseed'], 7]), (n, n, internal_grid.size))
+        holder['D'] = D
+        return hcipy.Field(D if transform is None else transform(D), internal_grid)
+    if mc['tfkind'] == 'generator':
+        ff = hcipy.FourierFilter(grid, tfgen, _mq(mc))
+    else:
+        probe = hcipy.FourierFilter(grid, tfgen, _mq(mc))
+        ff = hcipy.FourierFilter(grid, tfgen(probe.internal_grid), _mq(mc))
+    return grid, ff, holder
+
+
+def _mfield(mc, grid, salt):
+    import hcipy
+    n = mc['n']
+    ts = (n,) if mc['field'] == 'vector' else (n, n)
+    return hcipy.Field(_dyadic_complex(np.random.default_rng([mc['fseed'], salt]), ts + (grid.size,)), grid)
+
+
+def oracle_mcase(mc, observe=None):
+    """<y, forward x> = <backward y, x>, linearity, and backward = forward of a fresh filter built from D^H."""
+    import hcipy
+    bad = []
+    grid, ff, holder = build_mfilter(mc)
+    x, y = _mfield(mc, grid, 0), _mfield(mc, grid, 1)
+    tag = 'matrix-tf/%s' % mc['field']
+    try:
+        fx, fy, by = ff.forward(x.copy()), ff.forward(y.copy()), ff.backward(y.copy())
+        a, b = 0.5 - 1.25j, -2.0 + 0.75j
+        comb = ff.forward(hcipy.Field(a * np.asarray(x) + b * np.asarray(y), grid))
+        _, ffh, _ = build_mfilter(mc, transform=lambda D: np.conj(np.swapaxes(D, 0, 1)))
+        hy = ffh.forward(y.copy())
+    except Exception as e:
+        return [('raises %s %s' % (type(e).__name__, tag), 'FourierFilter with a tensor transfer function raised %s: %s' % (type(e).__name__, e))]
+    fx, fy, by, comb, hy = (np.asarray(v) for v in (fx, fy, by, comb, hy))
+    scale = max(1.0, float(np.abs(fx).max()), float(np.abs(fy).max()))
+    lin = float(np.abs(comb - (a * fx + b * fy)).max())
+    if not lin <= TOL * 4 * scale:
+        bad.append(('linear ' + tag, 'forward(a x + b y) differs from a forward(x) + b forward(y) by %.3g' % lin))
+    lhs, rhs = inner(np.asarray(y), fx, 1.0), inner(by, np.asarray(x), 1.0)
+    if not abs(lhs - rhs) <= TOL * max(1.0, abs(lhs), abs(rhs)):
+        bad.append(('adjoint ' + tag, '<y, forward x> = %r but <backward y, x> = %r (matrix-valued transfer function)' % (lhs, rhs)))
+    d = float(np.abs(by - hy).max())
+    if not d <= TOL * max(1.0, float(np.abs(hy).max())):
+        bad.append(('backward-is-conjugate-transpose ' + tag, 'backward(y) differs from forward(y) of a filter built from the conjugate transpose by %.3g' % d))
+    if observe is not None:
+        observe.update({'grid': grid, 'ff': ff, 'D': holder['D'], 'x': np.asarray(x), 'y': np.asarray(y), 'fx': fx, 'by': by})
+    return bad
+
+
+def mcase_requests(mc, obs, rng):
+    import hcipy
+    ff, D, n = obs['ff'], obs['D'], mc['n']
+    lines = ['C04 setup fresnel %d %d %s %s 1/16 1/2 1 %s 1' % (mc['dims'][0], mc['dims'][1], rat(mc['delta'][0]), rat(mc['delta'][1]), _vtext(mc['q'])),
+             'C04 emb']
+    # field_dot(tf, v) and field_dot(field_conjugate_transpose(tf), v) of the real code at three samples
+    ig = ff.internal_grid
+    v = _dyadic_complex(np.random.default_rng([mc['fseed'], 9]), (n, ig.size))
+    tf = hcipy.Field(D, ig)
+    r0 = np.asarray(hcipy.field_dot(tf, hcipy.Field(v, ig)))
+    r1 = np.asarray(hcipy.field_dot(hcipy.field_conjugate_transpose(tf), hcipy.Field(v, ig)))
+    obs['mdot'] = []
+    for k in sorted(set([0, ig.size - 1, int(rng.integers(0, ig.size))])):
+        for adj, r in ((0, r0), (1, r1)):
+            Dk = D[:, :, k].reshape(-1)
+            lines.append('C04 mdot %d %d [%s] [%s] [%s] [%s]' % (n, adj, ','.join(rat(float(t.real)) for t in Dk), ','.join(rat(float(t.imag)) for t in Dk),
+                                                                  ','.join(rat(float(t.real)) for t in v[:, k]), ','.join(rat(float(t.imag)) for t in v[:, k])))
+            obs['mdot'].append(r[:, k])
+    return lines
+
+
+def compare_mcase(ctx, mc, obs, answers):
+    ff, D, n = obs['ff'], obs['D'], mc['n']
+    kv, kemb = _kv(answers[0]), _kv(answers[1])
+    M = [int(v) for v in parse_rat_list(kv['M'])]
+    ctx.traces_validated += 1
+    if [int(d) for d in ff.internal_grid.dims] != M:
+        ctx.disagree('C04 padded size', {'mcase': mc, 'impl': [int(d) for d in ff.internal_grid.dims], 'model': M})
+        return
+    for resp, real in zip(answers[2:], obs['mdot']):
+        k = _kv(resp)
+        got = np.array([float(a) + 1j * float(b) for a, b in zip(parse_rat_list(k['re']), parse_rat_list(k['im']))])
+        ctx.traces_validated += 1
+        ctx.count('matrix-tf mdot-compared')
+        if got.shape != real.shape or not np.abs(got - real).max() <= TOL * max(1.0, float(np.abs(real).max())):
+            ctx.disagree('C04 matrix transfer function product', {'mcase': mc, 'impl': [str(c) for c in real], 'model': [str(c) for c in got]})
+    nx, ny = mc['dims']
+    rows = [int(v) for v in parse_rat_list(kemb['rows'])]
+    cols = [int(v) for v in parse_rat_list(kemb['cols'])]
+    sel = np.ix_(rows, cols)
+    Dsh = np.fft.ifftshift(D.reshape(n, n, M[1], M[0]), axes=(-2, -1))
+    sub = 'ij...,j...->i...' if mc['field'] == 'vector' else 'ij...,jk...->ik...'
+
+    def pipeline(e_in, d):
+        ts = e_in.shape[:-1]
+        padded = np.zeros(ts + (M[1], M[0]), dtype=complex)
+        padded[(Ellipsis,) + sel] = e_in.reshape(ts + (ny, nx))
+        out = np.fft.ifft2(np.einsum(sub, d, np.fft.fft2(padded, axes=(-2, -1))), axes=(-2, -1))
+        return out[(Ellipsis,) + sel].reshape(ts + (nx * ny,))
+
+    for name, e_in, e_out, d in (('forward', obs['x'], obs['fx'], Dsh), ('backward', obs['y'], obs['by'], np.conj(np.swapaxes(Dsh, 0, 1)))):
+        out = pipeline(e_in, d)
+        ctx.traces_validated += 1
+        ctx.count('matrix-tf pipeline-recomputed:' + name)
+        dev = float(np.abs(out - e_out).max())
+        if not dev <= TOL * max(1.0, float(np.abs(out).max())):
+            ctx.disagree('C04 matrix filter pipeline', {'mcase': mc, 'direction': name, 'max_dev': dev})
+
+
+# the matrix-valued pipeline executed by the Lean model (driver op `filtmp`), small grids
+
+def gen_pmcase(rng):
+    n = [2, 2, 3][int(rng.integers(0, 3))]
+    while True:
+        (nx, qx), (ny, qy) = PAXES[int(rng.integers(0, len(PAXES)))], PAXES[int(rng.integers(0, len(PAXES)))]
+        mxx, myy = int(np.round(qx * nx)), int(np.round(qy * ny))
+        if n * n * mxx * myy <= 256 and n * n * nx * ny * (mxx * myy) ** 2 <= 12000:
+            break
+    return {'dims': [nx, ny], 'delta': [0.25, [0.25, 0.5][int(rng.integers(0, 2))]], 'q': qx if (qx == qy and rng.random() < 0.7) else [qx, qy], 'n': n,
+            'field': ['vector', 'vector', 'matrix'][int(rng.integers(0, 3))], 'tfkind': ['generator', 'field'][int(rng.integers(0, 2))],
+            'fseed': int(rng.integers(0, 2 ** 31)), 'exec': True}
+
+
+def directed_pmcases():
+    return [{'dims': d, 'delta': [0.25, 0.25], 'q': q, 'n': n, 'field': f, 'tfkind': 'field', 'fseed': 12, 'exec': True}
+            for d, q, n, f in (([3, 2], 1.0, 2, 'vector'), ([2, 2], 1.5, 2, 'matrix'), ([1, 3], [3.0, 1.0], 3, 'vector'), ([2, 1], [1.5, 3.0], 2, 'vector'))]
+
+
+def pmcase_requests(mc, obs):
+    D, n = obs['D'], mc['n']
+    lines = []
+    obs['expect'] = []
+    for back, e_in, e_out in ((0, obs['x'], obs['fx']), (1, obs['y'], obs['by'])):
+        cols = [(e_in, e_out)] if mc['field'] == 'vector' else [(e_in[:, l, :], e_out[:, l, :]) for l in range(n)]
+        for v_in, v_out in cols:
+            lines.append('C04 filtmp %d %d %s %s %s %s' % (n, back, _glist(D.real.reshape(-1)), _glist(D.imag.reshape(-1)),
+                                                        _glist(v_in.real.reshape(-1)), _glist(v_in.imag.reshape(-1))))
+            obs['expect'].append((back, v_out.reshape(-1)))
+    return lines
+
+
+def compare_pmcase(ctx, mc, obs, answers):
+    for resp, (back, real) in zip(answers, obs['expect']):
+        if not resp.startswith('ok'):
+            raise MachineryError('C04 filtmp: driver answered %r for %r' % (resp, mc))
+        got = np.array([sum((float(parse_rat(c)) * np.exp(2j * np.pi * float(parse_rat(t))) for c, t in (term.split(':') for term in pix.split(',') if term)), 0j)
+                        for pix in resp.split('out=', 1)[1].split(';')])
+        ctx.traces_validated += 1
+        ctx.count('pipeline-executed(filtmp):' + ('backward' if back else 'forward'))
+        if got.shape != real.shape or not np.abs(got - real).max() <= 1e-12 * max(1.0, float(np.abs(real).max())):
+            ctx.disagree('C04 executed matrix pipeline', {'mcase': mc, 'direction': 'backward' if back else 'forward',
+                                                          'impl': [str(c) for c in real], 'model': [str(c) for c in got]})
+
+
+def run_mcases(ctx):
+    n = ctx.scale(160, 2500)
+    npm = ctx.scale(40, 600)
+    mcases = directed_mcases() + [gen_mcase(ctx.rng) for _ in range(n)] + directed_pmcases() + [gen_pmcase(ctx.rng) for _ in range(npm)]
+    lines, kept = [], []
+    for mc in mcases:
+        obs = {}
+        for key, what in oracle_mcase(mc, observe=obs):
+            ctx.violation(key, what, {'mcase': mc})
+        ctx.count('matrix-tf:%s n=%d %s' % (mc['field'], mc['n'], mc['tfkind']))
+        ctx.count('matrix-tf padding:' + ('none' if mc['q'] == 1.0 else ('per-axis' if isinstance(mc['q'], list) else 'both axes')))
+        ctx.case(None, nontrivial_key=('mcase', tuple(mc['dims']), _vkey(mc['q']), mc['n'], mc['field'], mc['tfkind']))
+        if 'ff' not in obs:
+            continue
+        req = mcase_requests(mc, obs, ctx.rng)
+        extra = pmcase_requests(mc, obs) if mc.get('exec') else []
+        if mc.get('exec'):
+            ctx.count('matrix-tf executed pipeline: n=%d %s' % (mc['n'], mc['field']))
+        kept.append((mc, obs, len(lines), len(req), len(extra)))
+        lines += req + extra
+    answers = ctx.model(lines)
+    for mc, obs, a, k, ke in kept:
+        compare_mcase(ctx, mc, obs, answers[a:a + k])
+        if ke:
+            compare_pmcase(ctx, mc, obs, answers[a + k:a + k + ke])
+
+
+# ---------------------------------------------------------------------------------------------
+# the pipeline itself: FourierFilter with internal sizes in {1, 2, 4}, where the DFT kernels are powers of i and the
+# Lean pipeline (`filterP`, `filterPBackward`: the very definitions of the `filterP_*` theorems and, through
+# `filter_dft2_eq_filterP`, of every theorem about `filter (dftPair2 ..) (cutoutEmb ..)`) runs exactly on Gaussian rationals
+
+AXES4 = [(1, 1.0), (1, 2.0), (1, 4.0), (2, 1.0), (2, 2.0), (3, 4 / 3), (3, 1.5), (3, 1.25), (4, 1.0), (2, 1.75), (1, 1.5)]
+
+
+def gen_fcase(rng):
+    (nx, qx), (ny, qy) = AXES4[int(rng.integers(0, len(AXES4)))], AXES4[int(rng.integers(0, len(AXES4)))]
+    q = qx if (qx == qy and rng.random() < 0.7) else [qx, qy]
+    return {'dims': [nx, ny], 'delta': [0.25, [0.25, 0.5][int(rng.integers(0, 2))]], 'q': q,
+            'field': ['scalar', 'scalar', 'vector'][int(rng.integers(0, 3))], 'tfkind': ['generator', 'field'][int(rng.integers(0, 2))],
+            'fseed': int(rng.integers(0, 2 ** 31))}
+
+
+PAXES = [(1, 1.0), (1, 3.0), (2, 1.0), (2, 1.5), (2, 2.5), (3, 1.0), (3, 5 / 3), (3, 2.0), (3, 7 / 3), (4, 1.0), (4, 1.25), (4, 1.5), (4, 2.0),
+         (5, 1.0), (5, 1.2), (5, 1.4), (6, 1.0), (6, 7 / 6), (7, 1.0), (2, 3.5), (3, 3.0), (1, 5.0), (8, 1.0), (9, 1.0)]
+
+
+def gen_pcase(rng):
+    """A FourierFilter of any small internal size (odd sizes, where fftshift != ifftshift, included) for the driver op `filtp`."""
+    while True:
+        (nx, qx), (ny, qy) = PAXES[int(rng.integers(0, len(PAXES)))], PAXES[int(rng.integers(0, len(PAXES)))]
+        mxx, myy = int(np.round(qx * nx)), int(np.round(qy * ny))
+        if mxx * myy <= 64 and nx * ny * (mxx * myy) ** 2 <= 12000:
+            break
+    fc = gen_fcase(rng)
+    fc.update({'dims': [nx, ny], 'q': qx if (qx == qy and rng.random() < 0.7) else [qx, qy], 'op': 'filtp'})
+    return fc
+
+
+def directed_pcases():
+    out = []
+    for (nx, qx), (ny, qy) in (((3, 1.0), (3, 1.0)), ((3, 5 / 3), (2, 2.5)), ((5, 1.0), (3, 1.0)), ((2, 1.5), (3, 7 / 3)), ((3, 1.0), (5, 1.4)),
+                               ((6, 1.0), (1, 3.0)), ((1, 5.0), (5, 1.0)), ((3, 2.0), (3, 2.0))):
+        for t in ('generator', 'field'):
+            out.append({'dims': [nx, ny], 'delta': [0.25, 0.25], 'q': qx if qx == qy else [qx, qy], 'field': 'scalar', 'tfkind': t, 'fseed': 6, 'op': 'filtp'})
+    return out
+
+
+def directed_fcases():
+    out = []
+    for (nx, qx), (ny, qy) in (((2, 2.0), (3, 4 / 3)), ((4, 1.0), (4, 1.0)), ((1, 4.0), (1, 4.0)), ((3, 1.5), (2, 2.0)), ((2, 1.0), (1, 2.0)),
+                               ((1, 1.0), (1, 1.0)), ((4, 1.0), (1, 4.0)), ((3, 1.25), (3, 1.25)), ((2, 2.0), (2, 2.0))):
+        for t in ('generator', 'field'):
+            out.append({'dims': [nx, ny], 'delta': [0.25, 0.25], 'q': qx if qx == qy else [qx, qy], 'field': 'scalar', 'tfkind': t, 'fseed': 5})
+    return out
+
+
+def build_ffilter(fc):
+    import hcipy
+    grid = hcipy.CartesianGrid(hcipy.RegularCoords(np.array(fc['delta'], dtype=float), np.array(fc['dims']),
+                                                   np.array([-d * (k - 1) / 2 for d, k in zip(fc['delta'], fc['dims'])])))
+    holder = {}
+
+    def tfgen(internal_grid):
+        holder['D'] = _dyadic_complex(np.random.default_rng([fc['fseed'], 7]), (internal_grid.size,))
+        return hcipy.Field(holder['D'].copy(), internal_grid)
+    q = _mq(fc)
+    if fc['tfkind'] == 'generator':
+        ff = hcipy.FourierFilter(grid, tfgen, q)
+    else:
+        probe = hcipy.FourierFilter(grid, tfgen, q)
+        ff = hcipy.FourierFilter(grid, tfgen(probe.internal_grid), q)
+    return grid, ff, holder
+
+
+def oracle_fcase(fc, observe=None):
+    """<y, forward x> = <backward y, x> on the real FourierFilter with a scalar transfer function."""
+    import hcipy
+    grid, ff, holder = build_ffilter(fc)
+    ts = () if fc['field'] == 'scalar' else (2,)
+    x = hcipy.Field(_dyadic_complex(np.random.default_rng([fc['fseed'], 0]), ts + (grid.size,)), grid)
+    y = hcipy.Field(_dyadic_complex(np.random.default_rng([fc['fseed'], 1]), ts + (grid.size,)), grid)
+    tag = 'small-filter/%s' % fc['field']
+    try:
+        fx, by = np.asarray(ff.forward(x.copy())), np.asarray(ff.backward(y.copy()))
+    except Exception as e:
+        return [('raises %s %s' % (type(e).__name__, tag), 'FourierFilter raised %s: %s' % (type(e).__name__, e))]
+    bad = []
+    lhs, rhs = inner(np.asarray(y), fx, 1.0), inner(by, np.asarray(x), 1.0)
+    if not abs(lhs - rhs) <= TOL * max(1.0, abs(lhs), abs(rhs)):
+        bad.append(('adjoint ' + tag, '<y, forward x> = %r but <backward y, x> = %r' % (lhs, rhs)))
+    if observe is not None:
+        observe.update({'grid': grid, 'ff': ff, 'D': holder['D'], 'x': np.asarray(x), 'y': np.asarray(y), 'fx': fx, 'by': by})
+    return bad
+
+
+def _glist(a):
+    return '[%s]' % ','.join(rat(float(t)) for t in a)
+
+
+def fcase_requests(fc, obs):
+    D = obs['D']
+    lines = ['C04 setup fresnel %d %d %s %s 1/16 1/2 1 %s 1' % (fc['dims'][0], fc['dims'][1], rat(fc['delta'][0]), rat(fc['delta'][1]), _vtext(fc['q']))]
+    obs['expect'] = []
+    for back, e_in, e_out in ((0, obs['x'], obs['fx']), (1, obs['y'], obs['by'])):
+        for comp_in, comp_out in zip(np.atleast_2d(e_in), np.atleast_2d(e_out)):
+            lines.append('C04 %s %d %s %s %s %s' % (fc.get('op', 'filt'), back, _glist(D.real), _glist(D.imag), _glist(comp_in.real), _glist(comp_in.imag)))
+            obs['expect'].append((back, comp_out))
+    return lines
+
+
+def compare_fcase(ctx, fc, obs, answers):
+    ff = obs['ff']
+    kv = _kv(answers[0])
+    M = [int(v) for v in parse_rat_list(kv['M'])]
+    ctx.traces_validated += 1
+    if [int(d) for d in ff.internal_grid.dims] != M:
+        ctx.disagree('C04 padded size', {'fcase': fc, 'impl': [int(d) for d in ff.internal_grid.dims], 'model': M})
+        return
+    for resp, (back, real) in zip(answers[1:], obs['expect']):
+        if not resp.startswith('ok'):
+            raise MachineryError('C04 filt: driver answered %r for %r' % (resp, fc))
+        op = fc.get('op', 'filt')
+        if op == 'filt':
+            k = _kv(resp)
+            got = np.array([float(a) + 1j * float(b) for a, b in zip(parse_rat_list(k['re']), parse_rat_list(k['im']))])
+        else:
+            # one formal phase sum per output pixel: terms c*exp(2 pi i t) written c:t
+            got = np.array([sum((float(parse_rat(c)) * np.exp(2j * np.pi * float(parse_rat(t))) for c, t in (term.split(':') for term in pix.split(',') if term)), 0j)
+                            for pix in resp.split('out=', 1)[1].split(';')])
+        ctx.traces_validated += 1
+        ctx.count('pipeline-executed(%s):' % op + ('backward' if back else 'forward'))
+        if got.shape != real.shape or not np.abs(got - real).max() <= 1e-12 * max(1.0, float(np.abs(real).max())):
+            ctx.disagree('C04 executed pipeline', {'fcase': fc, 'direction': 'backward' if back else 'forward',
+                                                   'impl': [str(c) for c in real], 'model': [str(c) for c in got]})
+
+
+def run_fcases(ctx):
+    n = ctx.scale(240, 3000)
+    npc = ctx.scale(60, 1000)
+    fcases = directed_fcases() + [gen_fcase(ctx.rng) for _ in range(n)] + directed_pcases() + [gen_pcase(ctx.rng) for _ in range(npc)]
+    lines, kept = [], []
+    for fc in fcases:
+        obs = {}
+        for key, what in oracle_fcase(fc, observe=obs):
+            ctx.violation(key, what, {'fcase': fc})
+        m = exact_regime({'kind': 'fresnel', 'dims': fc['dims'], 'delta': fc['delta'], 'lam': 1 / 16, 'z': 0.5, 'n': 1, 'q': fc['q'], 's': 1})['M']
+        ctx.count('small-filter M=%dx%d' % (m[0], m[1]) if fc.get('op', 'filt') == 'filt' else 'phase-sum filter: internal size %s' % ('odd on some axis' if (m[0] % 2 or m[1] % 2) else 'even'))
+        ctx.count('small-filter padding:' + ('none' if m == fc['dims'] else ('one axis' if (m[0] == fc['dims'][0] or m[1] == fc['dims'][1]) else 'both axes')))
+        ctx.count('small-filter:%s %s' % (fc['field'], fc['tfkind']))
+        ctx.case(None, nontrivial_key=('fcase', fc.get('op', 'filt'), tuple(fc['dims']), _vkey(fc['q']), fc['field'], fc['tfkind']))
+        if 'ff' not in obs:
+            continue
+        req = fcase_requests(fc, obs)
+        kept.append((fc, obs, len(lines), len(req)))
+        lines += req
+    answers = ctx.model(lines)
+    for fc, obs, a, k in kept:
+        compare_fcase(ctx, fc, obs, answers[a:a + k])
+
+
+# ---------------------------------------------------------------------------------------------
 
 def run(ctx):
     ctx.rule = ('Fresh FresnelPropagator / AngularSpectrumPropagator per case on regular grids 2..16 per axis (thorough ..24; odd, even, '
@@ -747,6 +1218,7 @@ def run(ctx):
                         'a fresh propagator is built per case (instance-cache reuse is finding D3, owned by C05)']
     n = ctx.scale(1400, 20000)
     cases = directed() + [gen_case(ctx.rng, big=(ctx.tier == 'thorough' and k % 4 == 0)) for k in range(n)]
+    cases += [gen_small_fresnel(ctx.rng) for _ in range(ctx.scale(40, 500))]
     all_lines, spans, kept = [], [], []
     with warnings.catch_warnings():
         warnings.simplefilter('ignore')
@@ -818,6 +1290,8 @@ def run(ctx):
         s_answers = ctx.model(s_lines)
         for cur, obs, pix, a, k, nh in s_kept:
             compare_model(ctx, cur, obs, pix, s_answers[a + nh - 1:a + k])
+        run_mcases(ctx)
+        run_fcases(ctx)
     if ctx.boundary_skipped > 0.10 * max(1, ctx.evaluations):
         raise MachineryError('too many boundary-skipped cases (%d of %d)' % (ctx.boundary_skipped, ctx.evaluations))
 
@@ -825,7 +1299,7 @@ def run(ctx):
 def replay(ctx, case):
     with warnings.catch_warnings():
         warnings.simplefilter('ignore')
-        bad = oracle_session(case['session']) if 'session' in case else oracle_case(case)
+        bad = oracle_session(case['session']) if 'session' in case else (oracle_mcase(case['mcase']) if 'mcase' in case else (oracle_fcase(case['fcase']) if 'fcase' in case else oracle_case(case)))
     for key, what in bad:
         print('  fails:', key, '-', what)
     return not bad
